@@ -332,6 +332,11 @@ static std::string run(std::vector<std::string> const &w)
 		bool ok=direct->check_in_document_root(a,real);
 		return ok ? "ok "+vh::hex(real) : std::string("none");
 	}
+	if(w[0]=="raw" && w.size()>=2 && vh::unhex(w[1],a)) {   // debugging aid: the whole reply
+		std::string reply;
+		if(!http_get(a,reply)) return "no-reply";
+		return vh::hex(reply.substr(0,4096));
+	}
 	if(w[0]=="req" && w.size()>=2 && vh::unhex(w[1],a)) {
 		std::string reply;
 		if(unresponsive) return "no-reply (service unresponsive since an earlier request)";
